@@ -43,6 +43,8 @@ pub struct Plan {
     pub cuts: Vec<u64>,
     pub calls: u64,
     pub kinds: Vec<Kind>,
+    /// requested transfer size of every call (0 for flush/seek)
+    pub sizes: Vec<usize>,
     pub sticky_on: bool,
     pub errors_returned: u64,
     pub record_kinds: bool,
@@ -54,21 +56,27 @@ pub fn plan() -> PlanRef {
     Rc::new(RefCell::new(Plan { record_kinds: true, ..Default::default() }))
 }
 
-pub struct Inst {
-    pub cur: Cursor<Vec<u8>>,
+pub struct Inst<T = Cursor<Vec<u8>>> {
+    pub cur: T,
     pub plan: PlanRef,
 }
 
-impl Inst {
+impl Inst<Cursor<Vec<u8>>> {
     pub fn new(data: Vec<u8>, plan: PlanRef) -> Inst {
         Inst { cur: Cursor::new(data), plan }
     }
-    fn point(&mut self, k: Kind) -> Option<Dev> {
+}
+impl<T> Inst<T> {
+    pub fn over(inner: T, plan: PlanRef) -> Inst<T> {
+        Inst { cur: inner, plan }
+    }
+    fn point(&mut self, k: Kind, size: usize) -> Option<Dev> {
         let mut p = self.plan.borrow_mut();
         let idx = p.calls;
         p.calls += 1;
         if p.record_kinds {
             p.kinds.push(k);
+            p.sizes.push(size);
         }
         if p.sticky_on {
             p.errors_returned += 1;
@@ -93,9 +101,9 @@ fn injected(k: Kind) -> io::Error {
     io::Error::new(io::ErrorKind::Other, format!("injected {} failure", k.name()))
 }
 
-impl Read for Inst {
+impl<T: Read + Seek> Read for Inst<T> {
     fn read(&mut self, buf: &mut [u8]) -> io::Result<usize> {
-        let d = self.point(Kind::Read);
+        let d = self.point(Kind::Read, buf.len());
         let mut n = buf.len();
         match d {
             Some(Dev::Err) | Some(Dev::ErrSticky) => return Err(injected(Kind::Read)),
@@ -107,7 +115,7 @@ impl Read for Inst {
             if let Some(c) = p.chunk {
                 n = n.min(c);
             }
-            let pos = self.cur.position();
+            let pos = if p.cuts.is_empty() { 0 } else { self.cur.stream_position().unwrap_or(0) };
             for &cut in &p.cuts {
                 if cut > pos && cut < pos + n as u64 {
                     n = (cut - pos) as usize;
@@ -117,9 +125,9 @@ impl Read for Inst {
         self.cur.read(&mut buf[..n])
     }
 }
-impl Write for Inst {
+impl<T: Write> Write for Inst<T> {
     fn write(&mut self, buf: &[u8]) -> io::Result<usize> {
-        let d = self.point(Kind::Write);
+        let d = self.point(Kind::Write, buf.len());
         let mut n = buf.len();
         match d {
             Some(Dev::Err) | Some(Dev::ErrSticky) => return Err(injected(Kind::Write)),
@@ -132,15 +140,15 @@ impl Write for Inst {
         self.cur.write(&buf[..n])
     }
     fn flush(&mut self) -> io::Result<()> {
-        match self.point(Kind::Flush) {
+        match self.point(Kind::Flush, 0) {
             Some(Dev::Err) | Some(Dev::ErrSticky) => Err(injected(Kind::Flush)),
             _ => self.cur.flush(),
         }
     }
 }
-impl Seek for Inst {
+impl<T: Seek> Seek for Inst<T> {
     fn seek(&mut self, pos: SeekFrom) -> io::Result<u64> {
-        match self.point(Kind::Seek) {
+        match self.point(Kind::Seek, 0) {
             Some(Dev::Err) | Some(Dev::ErrSticky) => Err(injected(Kind::Seek)),
             _ => self.cur.seek(pos),
         }
